@@ -21,6 +21,17 @@ Theorem C16_cache_bounded : forall ether hw cap evs i tfr, 1 <= cap ->
 Proof. exact cache_bounded_run. Qed.
 Print Assumptions C16_cache_bounded.
 
+(* ... and from any state satisfying the invariant (bounded, duplicate-free, every entry justified by
+   the learning history log0): the invariant is preserved by every event sequence, with the history
+   extended by the run's learning history. *)
+Theorem C16_invariant_preserved : forall evs i i' tfr log0,
+  1 <= if_cap i -> cache_wf (if_cap i) (if_cache i) -> cache_inv log0 (if_cache i) ->
+  nh_run i evs = Ok (i', tfr) ->
+  if_cap i' = if_cap i /\ if_ether i' = if_ether i /\ if_hw i' = if_hw i /\
+  cache_wf (if_cap i) (if_cache i') /\ cache_inv (log0 ++ nh_log i evs) (if_cache i').
+Proof. exact run_inv. Qed.
+Print Assumptions C16_invariant_preserved.
+
 (* unicast_uses_learned_addr: whenever lookup_hardware_addr answers "send to hardware address h"
    for a destination that is neither broadcast nor multicast, nothing was emitted or changed, and
    h is what the most recent validated ARP/NDISC message for the next hop n taught (no flush and no
